@@ -38,10 +38,11 @@ for c in $checks; do
 done
 cp "$patch" "$out/patch.diff"
 cp "$demo" "$out/demo_test.go.txt"
-python3 - "$out/meta.json" "$name" "$prop" "$pkg" "$base_ok" "$build_ok" "$mut_fail" "$suite_ok" "$checks" <<EOF
+printf '%b' "$results" > /tmp/seedchk.results.$$
+python3 - "$out/meta.json" "$name" "$prop" "$pkg" "$base_ok" "$build_ok" "$mut_fail" "$suite_ok" "$checks" /tmp/seedchk.results.$$ <<EOF
 import json,sys
-out,name,prop,pkg,base_ok,build_ok,mut_fail,suite_ok,checks=sys.argv[1:10]
-res = """$(printf "$results" | sed 's/\\/\\\\/g; s/"/\\"/g')"""
+out,name,prop,pkg,base_ok,build_ok,mut_fail,suite_ok,checks,resfile=sys.argv[1:11]
+res = open(resfile, errors="replace").read()
 try:
     old=json.load(open(out))
 except Exception:
@@ -52,3 +53,4 @@ old.update({"name":name,"breaks_property":prop,"demo_package_dir":pkg,
  "checks_run":checks.split(), "check_results":[l for l in res.split("\n") if l]})
 json.dump(old,open(out,"w"),indent=1)
 EOF
+rm -f /tmp/seedchk.results.$$
